@@ -73,7 +73,10 @@ Accesses == {
   A("dispatch", "start: HandleIncoming / HandleOutgoing", "HandlerPool.handlers", "w", {"HandlerPool.mu"}, FALSE, "logon_vs_senders"),
   A("app",      "OnChangeState / Stop: Clean", "EventHandlerPool.pool", "w", {"EventHandlerPool.mu"}, FALSE, "registration_vs_dispatch"),
   A("dispatch", "Trigger", "EventHandlerPool.pool", "r", {"EventHandlerPool.mu"}, FALSE, "registration_vs_dispatch"),
-  A("timerIn",  "Trigger (Disconnect)", "EventHandlerPool.pool", "r", {"EventHandlerPool.mu"}, FALSE, "silent_peer_disconnect")
+  A("timerIn",  "Trigger (Disconnect)", "EventHandlerPool.pool", "r", {"EventHandlerPool.mu"}, FALSE, "silent_peer_disconnect"),
+  \* (the callbacks of an event are called from a copy of the list taken under the lock: Stop may empty and refill the pool meanwhile)
+  A("app",      "Stop: Clean, then OnChangeState(EventLogout)", "EventHandlerPool.pool", "w", {"EventHandlerPool.mu"}, FALSE, "stop_vs_logout_answer"),
+  A("dispatch", "Trigger(EventLogout) for the peer's Logout crossing ours", "EventHandlerPool.pool", "r", {"EventHandlerPool.mu"}, FALSE, "stop_vs_logout_answer")
 }
 
 Concurrent(a, b) == a.proc # b.proc \/ a.proc \in Multi
